@@ -47,6 +47,7 @@ type Node struct {
 	Target   string
 	Typ      uint32 // st_mode & S_IFMT for 'O'
 	Mount    bool   // generator: make this directory a tmpfs mount point
+	Bind     string // generator: bind-mount this procfs/sysfs file over the (regular) file: its st_size is not what a read returns
 }
 
 // Child is a directory entry; Name holds the raw bytes of the name.
@@ -117,6 +118,13 @@ func Materialize(path string, n *Node) error {
 	case 'F':
 		if err := os.WriteFile(path, n.Content, 0o600); err != nil {
 			return err
+		}
+		if n.Bind != "" {
+			if err := syscall.Mount(n.Bind, path, "", syscall.MS_BIND, ""); err != nil {
+				return fmt.Errorf("bind mount: %w", err)
+			}
+			mounts = append(mounts, path)
+			return nil
 		}
 		if err := os.Chmod(path, os.FileMode(n.Perm&0o777)|specialBits(n.Perm)); err != nil {
 			return err
